@@ -4610,6 +4610,13 @@ XPath::predicates(
         else
         {
             theLength = subQueryResults.getLength();
+
+            // The list has changed, so the position cached for the last
+            // context node of the previous predicate is stale.  Popping and
+            // pushing the context node list invalidates it.
+            executionContext.popContextNodeList();
+
+            executionContext.pushContextNodeList(subQueryResults);
         }
     }
 
